@@ -156,6 +156,8 @@ type RefBlock struct {
 	Salt   int
 	Block  aggsync.Block
 	Leaves []common.Hash // exit-tree / L1-info-tree leaves appended by this block, in order
+	// Verifies: verify-batches events of this block (filled by NextL1Ops only; see Chain.Verifies)
+	Verifies []VerifyRef
 }
 
 // Chain is the boring reference of one store: the list of blocks believed processed.
